@@ -82,7 +82,7 @@ TABLE = {
     "dim": ("DIM", "--dim", "value"), "pa": ("PRIMITIVE_AXES", "--pa", "value"), "cell": ("CELL_FILENAME", "-c", "value"),
     "create_displacements": ("CREATE_DISPLACEMENTS", "-d", "true"), "amplitude": ("DISPLACEMENT_DISTANCE", "--amplitude", "value"),
     "pm": ("PM", "--pm", "true"), "nodiag": ("DIAG", "--nodiag", "false"),
-    "mesh": ("MESH", "--mesh", "value"), "gc": ("GAMMA_CENTER", "--gc", "true"), "nomeshsym": ("MESH_SYMMETRY", "--nomeshsym", "false"),
+    "mesh": ("MESH", "--mesh", "value"), "mp_shift": ("MP_SHIFT", None, "value"), "gc": ("GAMMA_CENTER", "--gc", "true"), "nomeshsym": ("MESH_SYMMETRY", "--nomeshsym", "false"),
     "eigvecs": ("EIGENVECTORS", "--eigvecs", "true"), "gv": ("GROUP_VELOCITY", "--gv", "true"), "nowritemesh": ("WRITE_MESH", "--nowritemesh", "false"),
     "band": ("BAND", "--band", "value"), "band_points": ("BAND_POINTS", "--band-points", "value"), "band_connection": ("BAND_CONNECTION", "--band-connection", "true"),
     "qpoints": ("QPOINTS", "--qpoints", "value"), "writedm": ("WRITEDM", "--writedm", "true"),
@@ -108,7 +108,7 @@ def render(settings, routes):
     conf, argv = [], []
     for name, val in settings.items():
         tag, opt, kind = TABLE[name]
-        if routes.get(name, "opt") == "tag":
+        if opt is None or routes.get(name, "opt") == "tag":  # opt None: the setting exists as a tag only (it still mixes with options)
             if kind == "true":
                 conf.append("%s = .TRUE." % tag)
             elif kind == "false":
@@ -143,6 +143,8 @@ def gen_post_step(rng, w, has_born, prev_wrote_fc, force_cmd=None):
             s["gc"] = True
         if rng.random() < 0.3:
             s["nomeshsym"] = True
+        if rng.random() < 0.25:
+            s["mp_shift"] = " ".join(rng.choice(["0", "1/2", "0.5"]) for _ in range(3))
     if mode == "mesh":
         if rng.random() < 0.4:
             s["eigvecs"] = True
@@ -399,12 +401,14 @@ def child_reference(args):
     out = {"fc": np.array(ph.force_constants), "nac_used": bool(nac_used)}
     mesh = [int(x) for x in s["mesh"].split()] if "mesh" in s else None
     mkw = dict(is_gamma_center=bool(s.get("gc", False)), is_mesh_symmetry=not s.get("nomeshsym", False))
+    if "mp_shift" in s:
+        mkw["shift"] = [0.5 if x in ("1/2", "0.5") else 0.0 for x in s["mp_shift"].split()]
     if mode in ("mesh", "readfc"):
         ph.run_mesh(mesh, with_eigenvectors=bool(s.get("eigvecs")), with_group_velocities=bool(s.get("gv")), **mkw)
         d = ph.get_mesh_dict()
         out.update(q=d["qpoints"], w=d["weights"], freq=d["frequencies"], gv=d["group_velocities"], vecs=d["eigenvectors"])
     elif mode == "tdisp":
-        ph.run_mesh(mesh, with_eigenvectors=True, is_mesh_symmetry=False, is_gamma_center=mkw["is_gamma_center"])
+        ph.run_mesh(mesh, with_eigenvectors=True, is_mesh_symmetry=False, is_gamma_center=mkw["is_gamma_center"], shift=mkw.get("shift"))
         ph.run_thermal_displacements(t_min=s.get("tmin", 0), t_max=s.get("tmax", 1000), t_step=s.get("tstep", 10), freq_min=s.get("fmin"), freq_max=s.get("fmax"))
         d = ph.get_thermal_displacements_dict()
         out.update(T=d["temperatures"], tdisp=d["thermal_displacements"])
@@ -435,7 +439,7 @@ def child_reference(args):
             d = ph.get_total_dos_dict()
             out.update(x=d["frequency_points"], dos=d["total_dos"])
         else:
-            ph.run_mesh(mesh, with_eigenvectors=True, is_mesh_symmetry=False, is_gamma_center=mkw["is_gamma_center"])
+            ph.run_mesh(mesh, with_eigenvectors=True, is_mesh_symmetry=False, is_gamma_center=mkw["is_gamma_center"], shift=mkw.get("shift"))
             ph.run_projected_dos(xyz_projection=bool(s.get("xyz_projection")), **kw)
             d = ph.get_projected_dos_dict()
             out.update(x=d["frequency_points"], pdos=d["projected_dos"])
